@@ -383,7 +383,7 @@ def explore(prop, tier, seed, spec):
              'known': known, 'gen': spec.get('gen', {}), 'stream': spec.get('stream', '')}
             for i in range(n_runs)]
     results = core.parallel_map('sim.driver', 'gen_and_run', args,
-                                timeout=spec.get('timeout', 180))
+                                timeout=spec.get('timeout', 180) * (3 if tier == 'thorough' else 1))
     rep.absorb(results)
     exit_code = 0
     seen_sigs = set()
